@@ -624,7 +624,11 @@ func Serve(n int) {
 			os.Exit(1)
 		}
 		s.SetBehaviour(func(c *h.HCall) (*puppet.Rep, error) {
-			if c.Req.GetKind() == 77 { // never answers; releases its connection
+			if c.Req.GetKind() == 78 && c.Send != nil { // streams two replies, then never answers
+				c.Send(c.Rep(0))
+				c.Send(c.Rep(1))
+			}
+			if c.Req.GetKind() == 77 || c.Req.GetKind() == 78 { // never answers; releases its connection
 				c.Ctx.Release()
 				select {
 				case <-c.S.Done():
